@@ -35,6 +35,10 @@ CHECKS["C10"] = dict(engine="E3", level="exploration", technique="deterministic 
    text="Seeded histories of path-taking and handle calls with paths over {names, '.', '..', '/', '//', B's own name} absolute and relative, Chdir mixed in, the base's working directory left inside B, outside B or in a directory whose name extends B's, issued through basepathfs.New(base,'/a') and on a standalone twin whose root holds B's content. After every call: everything outside B in the base (with mtimes, and B's own existence) unchanged; outcome, data, Getwd/Abs/Glob results and the paths embedded in PathError/LinkError equal the twin's after normalisation to absolute clean virtual paths; File.Name is the virtual path opened; virtual tree equals the twin's tree. Sampling, not proof.",
    note="twin = same implementation, so shared sequential defects cancel (C01's). Narrow relaxations listed in DESIGN.md section 8 (error precedence when the root is renamed, handle names derived from the opening string, empty path)", ref="3/C10")
 
+CHECKS["C11"] = dict(engine="E3", level="exploration", technique="deterministic twin simulation: parent + Sub views as clients interleaved at call granularity vs a twin driven with prefixed paths",
+   text="A MemFS parent and 1-3 Sub views (of '/', of subdirectories, nested) act as clients whose whole calls are interleaved by the tape; each uses symlink-free absolute paths (with '.', '..', doubled separators) and, after its own Chdir, relative paths, with SetUser/SetUMask/Chdir mixed in at arbitrary instants. Every call is mirrored on a twin MemFS with the view's directory prefixed under the acting client's user and umask. After every call: same outcome and data, parent tree = twin tree seen by administrator observers (visibility and confinement), and user/umask/cwd of every client are what that client itself set. Sampling, not proof.",
+   note="calls that would remove/move a view's directory or change the permissions of its proper ancestors are replaced by queries (the statement presumes the directory stays; a view is chroot-like and does not look above its root). A failed RemoveAll is resynchronised (documented partial effect).", ref="3/C11")
+
 NA = {
  "C13": "Clean, Join, Split, Dir, Base, IsAbs, Rel, Abs, FromSlash, ToSlash, VolumeName, Match and PathIterator are pure functions of their string arguments and the OS-type constant: there is no schedule, clock, I/O, fault or shared state for a simulator to control; generating strings is input fuzzing, a different technique (DESIGN.md section 4).",
 }
